@@ -27,7 +27,9 @@ Relaid(t, its, i, inq) ==
 \* a word directly followed by a word cannot be pulled apart or pushed together: only texts whose items end in EOF are used
 Usable(its) == its # << >> /\ its[Len(its)].typ = "EOF"
 One(e, v) == LET its == LexAll(e.text, Intended) IN
-             [base |-> e.id, variant |-> v, text |-> IF Usable(its) THEN Relaid(e.text, its, 1, FALSE) \o RE(TrivEnd) ELSE e.text]
+             \* (entry: the way into the parser the text is to be handed to - any of YangChars!AllEntries; the driver gives a second
+             \* Parse on the same Tree the original text as the one parsed before)
+             [base |-> e.id, variant |-> v, entry |-> RE(AllEntries), text |-> IF Usable(its) THEN Relaid(e.text, its, 1, FALSE) \o RE(TrivEnd) ELSE e.text]
 GInit == done = FALSE
 GNext == /\ ~done /\ done' = TRUE
          /\ ndJsonSerialize("relay.ndjson", [k \in 1..(Len(Texts) * NVar) |-> One(Texts[1 + ((k - 1) \div NVar)], 1 + ((k - 1) % NVar))])
